@@ -374,18 +374,18 @@ package thrift
 //@ func BinaryProtocol.WriteBinaryNocopy
 //@   props C15
 //@   requires len(buf) >= 4 + len(v) && sizeOK(len(v)) && region(buf) != region(v)
-//@   ensures isnil(w) || len(v) < 4096 ==> ret == 4 + len(v) && encBytes(buf, 0, old(snap(v)))
+//@   ensures isnil(w) || len(v) < 4096 ==> ret == 4 + len(v) && encBytes(buf, 0, old(snap(v))) && (!isnil(w) ==> w.$ndirect == old(w.$ndirect))
 //@   ensures !isnil(w) && len(v) >= 4096 ==> ret == 4 && encI32(buf, 0, len(v)) &&
 //@           w.$ndirect == old(w.$ndirect) + 1 && same(w.$lastdirect, v) && w.$lastremain == len(buf) - 4
-//@   assigns buf[0:4+len(v)], w.$ndirect, w.$lastdirect, w.$lastremain
+//@   assigns buf[0:4+len(v)], !isnil(w) ==> w.$ndirect, !isnil(w) ==> w.$lastdirect, !isnil(w) ==> w.$lastremain
 
 //@ func BinaryProtocol.WriteStringNocopy
 //@   props C15
 //@   requires len(buf) >= 4 + len(v) && sizeOK(len(v))
-//@   ensures isnil(w) || len(v) < 4096 ==> ret == 4 + len(v) && encBytes(buf, 0, v)
+//@   ensures isnil(w) || len(v) < 4096 ==> ret == 4 + len(v) && encBytes(buf, 0, v) && (!isnil(w) ==> w.$ndirect == old(w.$ndirect))
 //@   ensures !isnil(w) && len(v) >= 4096 ==> ret == 4 && encI32(buf, 0, len(v)) &&
 //@           w.$ndirect == old(w.$ndirect) + 1 && len(w.$lastdirect) == len(v) && eqbytes(w.$lastdirect, 0, v, 0, len(v)) && w.$lastremain == len(buf) - 4
-//@   assigns buf[0:4+len(v)], w.$ndirect, w.$lastdirect, w.$lastremain
+//@   assigns buf[0:4+len(v)], !isnil(w) ==> w.$ndirect, !isnil(w) ==> w.$lastdirect, !isnil(w) ==> w.$lastremain
 
 // ---- skipping (buffer) ----
 // The oracle is the Thrift Binary grammar in internal/verifspec (ValLenD and friends):
@@ -402,6 +402,7 @@ package thrift
 //@   let R = vs.StrLen(bytesat(p, L))
 //@   ensures skipResult(R, ret0, ret1)
 //@   ensures ret1 == nil ==> 4 <= ret0 && ret0 <= L
+//@   ensures ret1 != nil ==> 0 <= ret0 && ret0 <= L + 16 && region(ret1) != 0
 
 //@ func BinaryProtocol.Skip
 //@   arith int
@@ -409,6 +410,7 @@ package thrift
 //@   let R = vs.ValLenD(b, t, 64)
 //@   ensures skipResult(R, ret0, ret1)
 //@   ensures[C03] ret1 == nil ==> 1 <= ret0 && ret0 <= len(b)
+//@   ensures ret1 != nil ==> 0 <= ret0 && ret0 <= len(b) + 16 && region(ret1) != 0
 
 //@ func skipType
 //@   arith int
@@ -421,6 +423,7 @@ package thrift
 //@   hint vs.LemmaFixedPairs(B[6:], int8(B[0]), int8(B[1]), int(int32(vs.BE32(B, 2))), maxdepth)
 //@   ensures skipResult(R, ret0, ret1)
 //@   ensures ret1 == nil ==> 1 <= ret0 && ret0 <= L
+//@   ensures ret1 != nil ==> 0 <= ret0 && ret0 <= L + 16 && region(ret1) != 0
 //@   decreases maxdepth
 //@   loop 1 invariant 6 <= i && i <= L+8 && 0 <= j && j <= sz && err == nil
 //@   loop 1 invariant ksz == vs.Fixed(kt) && vsz == vs.Fixed(vt)
